@@ -149,7 +149,39 @@ func (g *Gen) readSchedule(docLen int) []int {
 	}
 }
 
+// firstCellsAndHeaderLikeRows: what the very first bytes of the output are (a cell or a column name starting
+// with the bytes of a byte order mark), and rows whose cells are spelled like the column names
+func (g *Gen) firstCellsAndHeaderLikeRows() {
+	bom := "\xef\xbb\xbf"
+	for _, tc := range []struct {
+		names []string
+		s0    []string
+		ints  []int64
+	}{{[]string{"s", "n"}, []string{bom + "x", "y", bom}, []int64{1, 2, 3}}, {[]string{bom + "s", "n"}, []string{"a", "b", "c"}, []int64{1, 2, 3}},
+		{[]string{"a", "7"}, []string{"x", "a", "a"}, []int64{7, 7, 8}}, {[]string{"a", "7"}, []string{"a", "a", "z"}, []int64{7, 7, 7}}} {
+		for _, nohdr := range []bool{false, true} {
+			g.begin("first cells and header-like rows")
+			strs := make([]*BS, len(tc.s0))
+			for i, v := range tc.s0 {
+				strs[i] = bsp(v)
+			}
+			f := g.do(Step{Op: "New", Recv: -1, HasOrder: true, ColOrder: bsList(tc.names),
+				Data: []ColData{{Name: toBS(tc.names[0]), Kind: "string", Strs: strs}, {Name: toBS(tc.names[1]), Kind: "int", Ints: tc.ints}}})
+			if g.frame(f).Err == nil {
+				g.do(Step{Op: "ToCSV", Recv: f, Csv: &CsvConf{NoHeaderWrite: nohdr}})
+				conf := &CsvConf{NoHeaderWrite: nohdr, HasTypes: true, Types: []TypeDecl{{Name: toBS(tc.names[0]), Typ: "string"}, {Name: toBS(tc.names[1]), Typ: "int"}}}
+				if nohdr {
+					conf.Headers = bsList(tc.names)
+				}
+				g.do(Step{Op: "ReadCSV", Other: f + 1, Csv: conf})
+			}
+			g.end()
+		}
+	}
+}
+
 func genC13(g *Gen) {
+	g.firstCellsAndHeaderLikeRows()
 	g.sizeSweep("csv")
 	g.longSweep("csv")
 	g.enumSeparators()
@@ -378,6 +410,23 @@ func (g *Gen) sameConfTwice() {
 
 func genC12(g *Gen) {
 	g.sameConfTwice()
+	// delimiters that are not ASCII, next to bytes that would form a UTF-8 sequence with them; header names that
+	// collide with the names given to renamed duplicates
+	for _, tc := range []struct {
+		doc   string
+		delim int
+		ren   bool
+	}{{"a\xa7b\n\xc3\xa71\nx\xc3\xa7y\n", 0xa7, false}, {"a\xc3b\n1\xc3\xa7\n\xa7\xc32\n", 0xc3, false}, {"a\xffb\nx\xff\xff\n", 0xff, false},
+		{"a,a,a0\n1,2,3\n", ',', true}, {"a0,a,a\n1,2,3\n", ',', true}, {"a,a1,a,a\nx,y,z,w\n", ',', true}, {"b,b0,b,b00,b\n1,2,3,4,5\n", ',', true}} {
+		g.begin("delimiters and renamed duplicates")
+		for _, reads := range [][]int{nil, {1}, {3, 2}} {
+			g.do(Step{Op: "ReadCSV", Recv: -1, Doc: toBS(tc.doc), Csv: &CsvConf{Delim: tc.delim, RenameDup: tc.ren}, Reads: reads})
+		}
+		if tc.ren {
+			g.do(Step{Op: "ReadCSV", Recv: -1, Doc: toBS(tc.doc), Csv: &CsvConf{RenameDup: true, HasTypes: true, Types: []TypeDecl{{Name: toBS("a0"), Typ: "string"}, {Name: toBS("a1"), Typ: "string"}}}})
+		}
+		g.end()
+	}
 	// cells at the limits of the column types' ranges: type inference and explicit types
 	for _, cell := range []string{"9223372036854775807", "9223372036854775808", "-9223372036854775808", "-9223372036854775809", "9999999999999999999",
 		"99999999999999999999", "+5", "007", "1e3", "1_000", "0x10", "-0", "1.", ".5", "NaN", "Inf", "true", "TRUE", "T", "1", ""} {
